@@ -28,6 +28,15 @@ CHECKS = {
         note=NOTE + " 'static is decided by a negative compile probe on one witness type (lifetimes are invisible to runtime probes).",
         technique="exhaustive enumeration of bound-declaration programs on the real macro; runtime trait-availability truth table vs iff model",
         ref="DESIGN.md §3 C04"),
+    "C06": dict(
+        text="Every method word of length <= 2 (quick) / <= 3 (thorough) over 12 method shapes (0-2 arguments incl. same-typed adjacent ones, &str, borrowed "
+             "returns from arguments and from self, trait-generic and method-generic parameters, four async shapes) x selector {default, Self, ref, Borrow} x "
+             "generic trait x supertrait/where clause x {native async, async_trait} is compiled and run against a tracing provider: one event per call, on "
+             "the provider reached through the selected route (address), arguments in order, result unchanged; and `Impl<X>: Trait` is probed at run time "
+             "for a family of X (no provider, provider by Self / AsRef / Borrow, Sync-only and !Sync flavours) and must be true exactly for the selected route.",
+        note=NOTE + " Traits that are not dyn-compatible are pruned for ref/Borrow; dyn delegation of a generic trait is exercised with `G: 'static`.",
+        technique="bounded-exhaustive enumeration of trait definitions on the real macro; executed trace + runtime availability truth table vs model",
+        ref="DESIGN.md §3 C06"),
     "C08": dict(
         text="Every module item word up to the bound (full 30-symbol alphabet: every visibility and every const/async/unsafe/extern "
              "qualifier combination on visible and private fns, structs+impls, nested mods, extern blocks, macro_rules, body-less "
